@@ -41,6 +41,14 @@ def _atoms(body):
                 out.setdefault("othernet", []).append((bi, e))
         if s == "Option::is_some(CoinMapping::get_coin($1.coins, %s))" % KEY:
             out["present"].append((bi, e))
+    # `matches!(state.network, NetID::Mainnet)` / `match tx.kind { TxKind::Faucet => .. }`: variant atoms (a switch on the enum's discriminant)
+    for e, c, bi in q.variant_atoms(body):
+        if c in ("Eq($2.kind, TxKind::Faucet{})", "Eq(TxKind::Faucet{}, $2.kind)"):
+            out["faucet"].append((bi, e))
+        elif c in ("Eq($1.network, NetID::Mainnet{})", "Eq(NetID::Mainnet{}, $1.network)"):
+            out["mainnet"].append((bi, e))
+        elif "network" in c:
+            out.setdefault("othernet", []).append((bi, e))
     # `if let Some(_) = get_coin(marker)` / `match get_coin(marker)`: a switch on the lookup's discriminant (1 = present)
     if not out["present"]:
         for bi, t in body.iter_terms("switch"):
